@@ -25,6 +25,17 @@ CHECKS = {
              "recorded deviation KD2 (binary `|`) is filtered only when the real split equals the transcription's.",
         technique="TLA+ spec (ExprSplit) + TLC exhaustive enumeration, replay into the real scanner/expansions, trace validation",
         design="4 (C16)"),
+    "C09": dict(
+        text="TLC model-checks ErrorSource.tla (documented selection rules vs a transcription of error.rs that keeps its "
+             "two index spaces - all fields / non-ignored fields - apart) on every struct/variant layout with up to 2 "
+             "(quick) / 3 (thorough) fields; every supported layout is compiled with the real derive (stable, and nightly "
+             "when a backtrace is detected) and the address returned by source() is compared with the fields' addresses; "
+             "ambiguous layouts must fail to compile; every layout is also expanded in-process (no internal failure).",
+        note="field types limited to a concrete error, a type parameter, Box<dyn Error>, std Backtrace; boxed sources "
+             "together with a detected backtrace are outside the supported space (provide() cannot forward to them); "
+             "rustc stable+nightly and TLC trusted.",
+        technique="TLA+ spec (ErrorSource) + TLC exhaustive layouts, replay as real types (address comparison)",
+        design="4 (C09)"),
 }
 
 NOT_YET = {}
